@@ -506,8 +506,9 @@ export async function run(ctx) {
           }
           // hash(): the statement promises invariance under property order, alias boundaries, member order, comments only
           const H32 = ["permuteProperties", "permuteUnionMembers", "comments", "introduceAlias", "inlineAlias", "wrapInIdentityGeneric"];
-          const which = h1[0] !== h3[0] ? "hash256" : h1[1] !== h3[1] && applied.every((a) => H32.includes(a)) ? "hash32" : null;
-          if (which) {
+          // (the two digests are judged independently: a recorded hash256 finding must not hide hash())
+          const whichs = [h1[0] !== h3[0] ? "hash256" : null, h1[1] !== h3[1] && applied.every((a) => H32.includes(a)) ? "hash32" : null].filter(Boolean);
+          for (const which of whichs) {
             ctx.violation({
               signature: `${which}-differs|${applied.slice().sort().join("+")}|${causeOf(p1, p3, coreKinds(prog.env, prog.cores.get(ps.name)).has("recursive") || isRecursiveParser(p1))}`,
               clause: "digest-depends-on-spelling",
